@@ -1,0 +1,87 @@
+//go:build verif
+
+package fn
+
+// Contracts for the verifier in /verif (comment-only file; no declarations).
+
+//@ spec p2(k int) real = ite(k <= 0, 1.0, 2.0*p2(k-1))
+
+//@ func FindRoot(fn, fn_dx, initialX, minX, maxX, tolerance, convergenceLimit, maxIterations) returns (x, delta)
+//@   safety C18
+//@   requires minX <= initialX && initialX <= maxX
+//@   requires fn(minX) <= 0 && 0 <= fn(maxX) && fn(minX) < fn(maxX)
+//@   requires tolerance > 0
+//@   callarg fn [C18.eval-inside] minX <= arg && arg <= maxX
+//@   callarg fn_dx [C18.eval-inside-dx] minX <= arg && arg <= maxX
+//@   ensures [C18.in-interval] minX <= x && x <= maxX
+//@   ensures [C18.value-at-x] delta == fn(x)
+//@   loop 0 invariant old(minX) <= minX && minX <= maxX && maxX <= old(maxX)
+//@   loop 0 invariant minDelta == fn(minX) && maxDelta == fn(maxX) && minDelta <= 0 && maxDelta >= 0 && minDelta < maxDelta
+//@   loop 0 invariant old(minX) <= x && x <= old(maxX) && delta == fn(x)
+//@   loop 0 invariant iteration >= 0
+//@   loop 0 invariant [C18.budget] (maxX - minX) * p2(iteration) <= old(maxX) - old(minX)
+//@   loop 1 invariant -1 <= rangeindex && rangeindex < len(trialXs)
+//@   loop 1 invariant minX <= minTrialX && minTrialX <= maxTrialX && maxTrialX <= maxX
+//@   loop 1 invariant minTrialDelta == fn(minTrialX) && maxTrialDelta == fn(maxTrialX) && minTrialDelta <= 0 && maxTrialDelta >= 0 && minTrialDelta < maxTrialDelta
+//@   loop 1 invariant forall(k, 0, len(trialXs), minX <= trialXs[k] && trialXs[k] <= maxX)
+//@   loop 1 invariant hitConvergenceLimit >= 0
+//@   loop 1 invariant len(trialXs) >= 2 && trialXs[0] == maxX - (maxX-minX)*0.5
+//@   loop 1 invariant implies(rangeindex >= 0, 2*(maxTrialX - minTrialX) <= maxX - minX)
+
+//@ # The same function under the additional assumption that fn is non-decreasing
+//@ # (first half of the property statement).
+//@ func FindRoot#monotone(fn, fn_dx, initialX, minX, maxX, tolerance, convergenceLimit, maxIterations) returns (x, delta)
+//@   requires minX <= initialX && initialX <= maxX
+//@   requires fn(minX) <= 0 && 0 <= fn(maxX) && fn(minX) < fn(maxX)
+//@   requires tolerance > 0 && maxIterations >= 1
+//@   requires forallr(a, forallr(b, implies(a <= b, fn(a) <= fn(b))))
+//@   ensures [C18.better-end] abs(delta) < tolerance || (abs(delta) <= abs(fn(minX)) && abs(delta) <= abs(fn(maxX)))
+//@   ensures [C18.better-end-strict] abs(delta) <= abs(fn(minX)) && abs(delta) <= abs(fn(maxX))
+//@   loop 0 invariant old(minX) <= minX && minX <= maxX && maxX <= old(maxX)
+//@   loop 0 invariant minDelta == fn(minX) && maxDelta == fn(maxX) && minDelta <= 0 && maxDelta >= 0 && minDelta < maxDelta
+//@   loop 0 invariant fn(old(minX)) <= minDelta && maxDelta <= fn(old(maxX))
+//@   loop 0 invariant iteration >= 0
+//@   loop 0 invariant implies(iteration >= 1, delta == minDelta || delta == maxDelta)
+//@   loop 0 invariant implies(iteration >= 1, abs(delta) <= abs(minDelta) && abs(delta) <= abs(maxDelta))
+//@   loop 1 invariant -1 <= rangeindex && rangeindex < len(trialXs)
+//@   loop 1 invariant minX <= minTrialX && minTrialX <= maxTrialX && maxTrialX <= maxX
+//@   loop 1 invariant minTrialDelta == fn(minTrialX) && maxTrialDelta == fn(maxTrialX) && minTrialDelta <= 0 && maxTrialDelta >= 0 && minTrialDelta < maxTrialDelta
+//@   loop 1 invariant fn(old(minX)) <= minTrialDelta && maxTrialDelta <= fn(old(maxX))
+//@   loop 1 invariant forall(k, 0, len(trialXs), minX <= trialXs[k] && trialXs[k] <= maxX)
+
+//@ func brackets(x, xs) returns (i, j)
+//@   safety C18
+//@   requires xs.len >= 2
+//@   requires forall(a, 0, xs.len, forall(b, 0, xs.len, implies(a < b, xs.at(a) < xs.at(b))))
+//@   assigns nothing
+//@   ensures [C18.brackets-shape] (i == -1 && j == -1) || (0 <= i && j == i+1 && j < xs.len)
+//@   ensures [C18.brackets-inside] iff(i >= 0, xs.at(0) <= x && x <= xs.at(xs.len-1))
+//@   ensures [C18.brackets-segment] implies(i >= 0, xs.at(i) <= x && x <= xs.at(j) && forall(k, 1, j, xs.at(k) < x))
+//@   loop 0 invariant 1 <= j && j <= n && i == j-1 && n == xs.len
+//@   loop 0 invariant xs.at(0) <= x && x <= xs.at(n-1)
+//@   loop 0 invariant forall(k, 1, j, xs.at(k) < x)
+
+//@ func Piecewise(x, xs, ys) returns (y, err)
+//@   safety C18
+//@   requires xs.len >= 2 && ys.len == xs.len
+//@   requires forall(a, 0, xs.len, forall(b, 0, xs.len, implies(a < b, xs.at(a) < xs.at(b))))
+//@   assigns nothing
+//@   ensures [C18.pw-error-iff-outside] iff(!err.isnil, x < xs.at(0) || x > xs.at(xs.len-1))
+//@   ensures [C18.pw-knots] implies(err.isnil, forall(k, 0, xs.len, implies(x == xs.at(k), y == ys.at(k))))
+//@   ensures [C18.pw-interp] implies(err.isnil, forall(k, 0, xs.len-1, implies(xs.at(k) <= x && x <= xs.at(k+1), y*(xs.at(k+1)-xs.at(k)) == ys.at(k)*(xs.at(k+1)-xs.at(k)) + (x-xs.at(k))*(ys.at(k+1)-ys.at(k)))))
+//@   ensures [C18.pw-between] implies(err.isnil, forall(k, 0, xs.len-1, implies(xs.at(k) <= x && x <= xs.at(k+1), min(ys.at(k), ys.at(k+1)) <= y && y <= max(ys.at(k), ys.at(k+1)))))
+
+//@ # NaN mode (IEEE 754: every ordered comparison with NaN is false): a
+//@ # not-a-number argument is reported as an error, never as a number.
+//@ func brackets#nan(x, xs) returns (i, j)
+//@   nan x
+//@   requires xs.len >= 2
+//@   assigns nothing
+//@   ensures [C18.brackets-nan] i == -1 && j == -1
+//@   loop 0 invariant 1 <= j && j <= n && i == j-1 && n == xs.len
+
+//@ func Piecewise#nan(x, xs, ys) returns (y, err)
+//@   nan x
+//@   requires xs.len >= 2 && ys.len == xs.len
+//@   assigns nothing
+//@   ensures [C18.pw-nan] !err.isnil
